@@ -27,10 +27,10 @@ func init() {
 				Flavours: []string{"plain", "race", "cover"},
 				Blocks:   16,
 				Procs:    16,
-				Rule: "case = a string s or a list ss. Exhaustive: every single byte 1..255 alone and embedded in four positions; every string of length <= 3 (<= 4 thorough) over a 24-byte alphabet of every shell metacharacter, both quotes, backslash, blank, tab, newline, glob/comment/tilde/assignment characters, two plain letters and a two-byte non-ASCII rune; every rune U+0080..U+FFFF (and a stride of the supplementary planes) alone, at the start of a word and of a list, plus byte-order marks, '#!', CR LF, escape sequences and option-like words in first position; strings of 4090..70000 bytes around common buffer sizes (quoted spans longer than 4096 and 65536 bytes); random lists of 0..4 such strings (incl. the empty string and the empty list) and random byte strings up to 40 bytes incl. invalid UTF-8. " +
+				Rule: "case = a string s or a list ss. Exhaustive: every single byte 1..255 alone and embedded in four positions; every string of length <= 3 (<= 4 thorough) over a 24-byte alphabet of every shell metacharacter, both quotes, backslash, blank, tab, newline, glob/comment/tilde/assignment characters, two plain letters and a two-byte non-ASCII rune; every rune U+0080..U+FFFF (and a stride of the supplementary planes) alone, at the start of a word and of a list, plus byte-order marks, '#!', CR LF, escape sequences and option-like words in first position; a position sweep (one byte of every value at every offset of an otherwise plain word of every length 1..40 and around 64/128/4096; pairs of special characters at every two offsets up to length 26); strings of 4090..70000 bytes around common buffer sizes (quoted spans longer than 4096 and 65536 bytes); random lists of 0..4 such strings (incl. the empty string and the empty list) and random byte strings up to 40 bytes incl. invalid UTF-8. " +
 					"Per string: Split(Quote(s)) == [s], the independent scanner (special byte only inside single quotes or after a backslash; unquoting gives s), and dash + 'bash +B' evaluating 'emit Quote(s)' in a directory with bait files (a b ab [a] x=y ~ #a ...) and HOME set; per list: Split(Join(ss)) == ss && complete, and the shells on Join(ss). Quote and Join calls are interleaved and every result is kept and re-verified at the end (pool aliasing); under -race 8 goroutines do the same concurrently. " +
 					"distinct = the string/list itself (enumerated; random ones by hash); non-trivial = it contains a byte that needs protection, or is empty",
-				Required:     []string{"strings_checked", "lists_checked", "scanner_checks", "shell_words_dash", "shell_words_bash", "kept_results_rechecked", "concurrent_calls", "all_single_bytes", "long_strings", "rune_sweep_strings"},
+				Required:     []string{"strings_checked", "lists_checked", "scanner_checks", "shell_words_dash", "shell_words_bash", "kept_results_rechecked", "concurrent_calls", "all_single_bytes", "long_strings", "rune_sweep_strings", "position_sweep_strings"},
 				Exhaustive:   true,
 				Assumptions:  []string{"dash and bash (+B, LC_ALL=C) as installed are the POSIX shells consulted", "strings containing NUL are not passed to the shells"},
 				CoverPkgs:    []string{"github.com/creachadair/mds/shell"},
@@ -345,6 +345,78 @@ func runC15(c *fw.Ctx) {
 			n += 5
 		}
 		c.Add("rune_sweep_strings", n)
+		c.Evals(n)
+		c.SeenEnum(n)
+		m.recheck(rig)
+	}
+	// position sweep: ONE character that needs protection (every byte value in
+	// turn) at every offset of an otherwise plain word of every length up to 40
+	// (a few lengths around 64 and 4096 too), and pairs of such characters at two
+	// offsets: a scan that looks at bytes in blocks must not have a blind lane
+	if !light && c.Begin(idx+720000+c.Block) {
+		var n int64
+		plain := "abcdefghijklmnopqrstuvwxyzABCDEFGHIJKLMNOPQRSTUVWXYZ"
+		word := func(L int) []byte {
+			w := make([]byte, L)
+			for i := range w {
+				w[i] = plain[i%len(plain)]
+			}
+			return w
+		}
+		lens := []int{}
+		for L := 1; L <= 40; L++ {
+			lens = append(lens, L)
+		}
+		lens = append(lens, 63, 64, 65, 127, 128, 129)
+		for b := 1 + c.Block; b < 256; b += c.NBlocks {
+			for _, L := range lens {
+				for p := 0; p < L; p++ {
+					if L > 40 && p%8 != b%8 && p < L-9 {
+						continue
+					}
+					w := word(L)
+					w[p] = byte(b)
+					before := len(m.kept)
+					m.checkString(string(w))
+					n++
+					if (b*31+L*7+p)%97 != 0 {
+						m.kept = m.kept[:before] // the shells see a sample
+					}
+				}
+			}
+			if c.Stopped() {
+				return
+			}
+		}
+		specials := " '\"\\$;*\n\t|"
+		for si := c.Block % len(specials); si < len(specials); si += c.NBlocks {
+			for sj := 0; sj < len(specials); sj++ {
+				for L := 2; L <= 26; L++ {
+					for p := 0; p < L; p++ {
+						for q := p + 1; q < L; q++ {
+							w := word(L)
+							w[p], w[q] = specials[si], specials[sj]
+							before := len(m.kept)
+							m.checkString(string(w))
+							n++
+							if (L*131+p*17+q)%211 != 0 {
+								m.kept = m.kept[:before]
+							}
+						}
+					}
+				}
+			}
+		}
+		// long words with a single special at one offset of each residue mod 8 and 16
+		for _, L := range []int{4096, 4100, 8200} {
+			for p := L - 40; p < L; p++ {
+				w := word(L)
+				w[p] = " '$\\"[p%4]
+				m.checkString(string(w))
+				n++
+			}
+		}
+		c.Add("position_sweep_strings", n)
 		c.Evals(n)
 		c.SeenEnum(n)
 		m.recheck(rig)
